@@ -859,6 +859,11 @@ def parse_numpy(
         offset += 1
 
     # Finish current section.
-    _append_section(sections, current_section, admonition_title)
+    if current_section and not admonition_title and not any(current_section):
+        # Only empty lines are left: the docstring is empty.
+        # Like the other parsers, return a single empty text section.
+        sections.append(DocstringSectionText(""))
+    else:
+        _append_section(sections, current_section, admonition_title)
 
     return sections
